@@ -1,4 +1,5 @@
 CONSTANT Instance = "plonk"
+CONSTANT NL = 2
 CONSTANT Disabled = {"InitMerkle0"}
 CONSTANT Mutant = "none"
 INIT Init
